@@ -52,8 +52,9 @@ def eqFold (a b : String) : Bool := fold a == fold b
 def Name.matches (f s : Name) : Bool :=
   eqFold f.s s.s && (!s.resLower || f.q == s.q)
 
-/-- names whose object ID is the name itself (or its lower-cased form when it equals a reserved keyword) -/
-def plainChar (c : Char) : Bool := c.isAlphanum
+/-- names whose object ID the model constructs: letters, digits, hyphen, space, dot (the last three make `RawString` quote the
+    key in some positions, see `SemProj.objID`) -/
+def plainChar (c : Char) : Bool := c.isAlphanum || c == '-' || c == ' ' || c == '.'
 def plainName (s : String) : Bool := !s.isEmpty && s.toList.all plainChar
 
 /-! ### AST of the core fragment (as produced by the real parser) -/
